@@ -4,7 +4,7 @@ from __future__ import annotations
 import corr
 import dets
 import gen
-from common import Outcome, f2h, np, rng_for
+from common import Outcome, close, f2h, h2f, np, rng_for, run_driver
 
 LEVEL = "proof"
 EXPLANATION = ("Theorems: reset s = init as whole model states for every detector and carrier; run_after_reset. This run: "
@@ -48,6 +48,24 @@ def one_case(out: Outcome, rng, cls: str, p: dict, pre: list, post: list, runner
              nontrivial=len(pre) > 0)
 
 
+def incks_model(out: Outcome, w: int, ref, pre: list, post: list, impl: list) -> None:
+    """the IncrementalKSTest state machine of the model on the same history (fit, updates, reset, fit, updates)"""
+    lines = [f"x kn {w}", "x kf " + " ".join(f2h(v) for v in ref)] + [f"x ku {f2h(v)}" for v in pre] + ["x kr", "x kf " + " ".join(f2h(v) for v in ref)] + [f"x ku {f2h(v)}" for v in post]
+    res = run_driver(lines)[len(pre) + 4:]
+    for j, (g, want) in enumerate(zip(res, impl)):
+        rep = {"class": "IncrementalKSTest", "window": w, "ref": list(map(float, ref)), "pre": pre, "post": post, "post_index": j}
+        if want is None or g == "-":
+            if (want is None) != (g == "-"):
+                out.mismatch(f"IncrementalKSTest: model returns {g} where the implementation returns {want} at post-reset update {j}", rep)
+                return
+            continue
+        ms, mh, mp = g.split(" ")
+        if abs(h2f(ms[1:]) - want[0]) > 1e-12 or abs(h2f(mp[1:]) - want[1]) > 1e-9 + 1e-7 * want[1] + (1e-3 if h2f(mp[1:]) == 1.0 else 0):
+            out.mismatch(f"IncrementalKSTest: model (statistic, p)=({h2f(ms[1:])!r}, {h2f(mp[1:])!r}) vs implementation {want} at post-reset update {j}", rep)
+            return
+    out.traces_validated += 1
+
+
 def data_drift_cases(out: Outcome, rng, n_cases: int) -> None:
     from frouros.detectors.data_drift.streaming import IncrementalKSTest, MMD as MMDStreaming
     from frouros.metrics import PrequentialError
@@ -73,15 +91,19 @@ def data_drift_cases(out: Outcome, rng, n_cases: int) -> None:
                 out.violation(f"{name}: counters/reference not cleared by reset()", rep)
             a.fit(X=ref if name == "IncrementalKSTest" else ref.reshape(-1, 1))
             b.fit(X=ref if name == "IncrementalKSTest" else ref.reshape(-1, 1))
+            impl = []
             for j, v in enumerate(post):
                 vv = v if name == "IncrementalKSTest" else np.array([v])
                 ra, _ = a.update(value=vv)
+                impl.append(None if ra is None or name != "IncrementalKSTest" else (float(ra.statistic), float(ra.p_value)))
                 rb, _ = b.update(value=vv)
                 ta = None if ra is None else tuple(f2h(x) for x in ((ra.statistic, ra.p_value) if name == "IncrementalKSTest" else (ra.distance,)))
                 tb = None if rb is None else tuple(f2h(x) for x in ((rb.statistic, rb.p_value) if name == "IncrementalKSTest" else (rb.distance,)))
                 if ta != tb:
                     out.violation(f"{name}: output after reset()+fit differs from a fresh fitted instance at update {j}: {ta} vs {tb}", {**rep, "post_index": j})
                     break
+            if name == "IncrementalKSTest" and len(impl) == len(post):
+                incks_model(out, w, ref, pre, post, impl)
             out.case({"class": name, "window": w, "pre_len": len(pre), "post_len": len(post)}, nontrivial=len(pre) > 0)
         alpha = rng.choice([1.0, 0.999, 0.9, 0.5])
         m1, m2 = PrequentialError(alpha=alpha), PrequentialError(alpha=alpha)
